@@ -14,6 +14,7 @@ import io
 import itertools
 import math
 
+from mc import refserver
 from mc.core import Outcome, SubCheck
 from mc.product import Concat, Mapped, Product
 from props import doccommon as dc
@@ -325,6 +326,8 @@ def seq_docs():
             head + '<g transform="rotate(x)"><rect id="in" width="1" height="1"/></g><circle id="after" cx="50%" cy="50%" r="1"/></svg>',
             head + '<defs><g id="dg" fill="green"><rect id="dr" width="4" height="3"/></g></defs><use id="u1" href="#dg" x="5"/><use id="u2" href="#dr" y="7" transform="scale(2)"/></svg>',
         ]
+        # documents that agree in viewBox / width / height and differ in position or alignment only
+        docs += [build_doc(ra, ch, lt) for (rn, ra, ch, ln, lt) in colliding_documents()]
         SEQ_DOCS = docs
     return SEQ_DOCS
 
@@ -343,7 +346,8 @@ def observe_doc(svg, doc, **kw):
 
 class Sequels(SubCheck):
     """parse histories of length 2: SVG.parse(A) then SVG.parse(B) for every ordered pair of the document alphabet and
-    both reify settings; B's shapes must be exactly what B gives after a neutral first document (nothing may survive a
+    both reify settings; B's shapes must be exactly what B gives on its own - asked of a reference process that has parsed
+    nothing else (mc/refserver.py) - (nothing may survive a
     parse outside the tree it returned)"""
     name = "sequels"
 
@@ -352,6 +356,7 @@ class Sequels(SubCheck):
         n = len(seq_docs())
         self.space = Product(range(n), range(n), [True, False])
         self.bounds = dict(documents=n, history=2)
+        self._ref = refserver.RefServer(lambda req: observe_doc(svg, req[0], reify=req[1]))
 
     def size(self):
         return len(self.space)
@@ -368,8 +373,8 @@ class Sequels(SubCheck):
         kw = dict(reify=case["reify"])
         neutral = '<svg xmlns="http://www.w3.org/2000/svg"><rect width="1" height="1"/></svg>'
         try:
-            observe_doc(svg, neutral, **kw)
-            base = observe_doc(svg, B, **kw)
+            # what B gives on its own: asked of a process that has parsed nothing but such reference requests
+            base = self._ref.call((B, case["reify"]))
             try:
                 observe_doc(svg, A, **kw)
             except Exception:  # noqa  (A's own outcome is C10's / the documents sub-check's business)
